@@ -7,23 +7,24 @@
    What is owed after the batch -- retransmissions, completions, timers --
    must all be settled when the processing call returns.                     *)
 EXTENDS Naturals, Sequences, FiniteSets, TLC, Json
-CONSTANTS Cfgs, Kinds, Faults, Nests
-VARIABLES cfg, n1, n2, fault, k1, k2, order, done
+CONSTANTS Cfgs, Kinds, Faults, Nests,
+          Copies     \* how many identical copies of the first reply of the batch are delivered
+VARIABLES cfg, n1, n2, fault, k1, k2, order, cp, done
 Name(t) == "n" \o ToString(t) \o ".test"
 Tx(t) == "name:n" \o ToString(t) \o "."
 Q(t, nest) == LET b == [op |-> "query", t |-> t, name |-> Name(t), qt |-> 1] IN
               IF nest = "query" THEN b @@ [nest |-> [op |-> "query", t |-> 100 + t, name |-> Name(100 + t), qt |-> 1]]
               ELSE IF nest = "cancel" THEN b @@ [nest |-> [op |-> "cancel"]]
               ELSE IF nest = "setservers" THEN b @@ [nest |-> [op |-> "setservers", csv |-> "10.0.0.2"]] ELSE b
-R(t, k, deliver) == [op |-> "reply", tx |-> Tx(t), kind |-> k] @@ (IF deliver = 0 THEN [deliver |-> 0] ELSE <<>>)
+R(t, k, deliver) == [op |-> "reply", tx |-> Tx(t), kind |-> k] @@ (IF deliver = 0 THEN [deliver |-> 0] @@ (IF cp > 1 THEN [copies |-> cp] ELSE <<>>) ELSE <<>>)
 F == IF fault = "none" THEN <<>> ELSE <<[op |-> "failnext", what |-> fault, errno |-> 111]>>
 Tmo == <<[op |-> "adv", to |-> "deadline"], [op |-> "process"]>>
 Hist == <<Q(1, n1), Q(2, n2)>> \o F
         \o (IF order = 1 THEN <<R(1, k1, 0), R(2, k2, 1)>> ELSE <<R(2, k2, 0), R(1, k1, 1)>>)
-        \o Tmo \o Tmo
-GInit == /\ cfg \in Cfgs /\ n1 \in Nests /\ n2 \in Nests /\ fault \in Faults /\ k1 \in Kinds /\ k2 \in Kinds /\ order \in {1, 2}
+        \o <<[op |-> "drain"]>> \o Tmo \o Tmo      \* drain: connections that became writable (TCP retries) are written
+GInit == /\ cfg \in Cfgs /\ n1 \in Nests /\ n2 \in Nests /\ fault \in Faults /\ k1 \in Kinds /\ k2 \in Kinds /\ order \in {1, 2} /\ cp \in Copies
          /\ done = FALSE
-GNext == ~done /\ done' = TRUE /\ UNCHANGED <<cfg, n1, n2, fault, k1, k2, order>>
+GNext == ~done /\ done' = TRUE /\ UNCHANGED <<cfg, n1, n2, fault, k1, k2, order, cp>>
 Emit == PrintT(ToJson([cfg |-> cfg, steps |-> Hist]))
 BatchCfgs == { [nsrv |-> 1, tries |-> 3, timeout |-> 1000, seed |-> 1],
                [nsrv |-> 2, tries |-> 2, timeout |-> 1000, seed |-> 2],
